@@ -203,7 +203,9 @@ class ConfigMatrixPart:
                             coroutines="1" if c["std"] == 20 else "0")
                 got = dict(kv.split("=") for kv in st.split()[1:]) if st.startswith("stats") else {}
                 bad = {k: (v, got.get(k)) for k, v in want.items() if got.get(k) != v}
-                if bad:
+                if not got:
+                    cfginfo[c["name"]]["harness_stats"] = "none (the harness gave up after too many aborts)"
+                elif bad:
                     verdict.add(f"cfg[{c['name']}]: harness not compiled as requested", f"requested vs reported: {bad}",
                                 dict(stream="cfg", config=c["name"], stats=st), found_input=False)
         distinct, hist, mism = set(), {}, 0
@@ -325,7 +327,7 @@ class AsyncStackPart:
                     st["discipline_accepted"] += 1
                     if "balanced=1" in disc[s]:
                         st["discipline_accepted_balanced"] += 1
-                        if not o.split(" | ")[-1].startswith("c=-"):
+                        if "assert" not in o and not o.split(" | ")[-1].startswith("c=-"):
                             verdict.add("asyncstack: balanced accepted script leaves a current root on the real code", f"script {s}: {o.split(' | ')[-1]}",
                                         dict(stream="asyncstack", config=c["name"], script=s, impl=o), found_input=True)
                     if "assert" in o:
